@@ -198,6 +198,19 @@ XalanOutputStream::transcode(
                 }
             }
 
+            if (theSourceBytesEaten == 0 && theRemainingBufferLength != 0)
+            {
+                // The transcoder cannot make any progress, for example,
+                // because the data ends with the first half of a surrogate
+                // pair.  A larger destination will not help, so report
+                // the failure instead of growing the buffer forever.
+                XalanDOMString  theExceptionBuffer(theDestination.getMemoryManager());
+
+                throw TranscodingException(
+                        theExceptionBuffer,
+                        0);
+            }
+
             theTotalBytesFilled += theTargetBytesEaten;
             theTotalBytesEaten += theSourceBytesEaten;
 
